@@ -48,6 +48,19 @@ add("C08",
     "survivor'. Probabilistic variants: membership/count by oracle only. Axiom-free.",
     "Rocq/Coq proof (loop invariants over all tapes) + tape-replay correspondence")
 
+add("C11",
+    "Coq theorems over an executable model of SerialArchipelago migration (shuffled index list read pairwise, each partner "
+    "shuffles and dumps int(round(0.5*len)) individuals - Python's round-half-to-even written out - and appends what it "
+    "receives, reset_fitness on both) and of Archipelago/Island._do_evolution's age bookkeeping: the pairing is a matching with "
+    "exactly n mod 2 islands sitting out, the multiset of individuals is conserved, equally sized islands keep their size, "
+    "participants are all marked for re-evaluation and the others are untouched, evolve(n) adds exactly n to every age - for all "
+    "island counts, sizes and shuffle outcomes. Tied to the code by replaying the recorded np.random.shuffle outcomes of real "
+    "SerialArchipelago.evolve calls through the model (compared inside Coq).",
+    "Trusted: Coq kernel; np.random.shuffle permutes in place (the harness records the permutation); the harness. The islands' "
+    "evolutionary algorithm is an abstract function in the age theorem and the identity in the correspondence runs. The parallel "
+    "archipelago's migration is covered under C12 (transition system), not here. Axiom-free.",
+    "Rocq/Coq proof (counting argument over all shuffles) + tape-replay correspondence")
+
 NOT_APPLICABLE = []
 def main():
     props = [json.loads(l)["id"] for l in open(os.path.join(HERE, "properties.jsonl"))]
